@@ -1,7 +1,8 @@
 SPECIFICATION Spec
 CONSTANTS
   CurveNames = {"E8M3", "E8G", "E8Z", "E8C4"}
-  PQ = { 9010, 9009, 9008, 9007, 9015, 9128, 9069, 17110, 128187 }
+  PQ = { 1009015, 1017110, 9010, 9009, 9008, 9007, 9128, 9069, 128187 }
+  LStride = 8
   Heavy = FALSE
 INVARIANTS Closed Corners Diagonal AllAgree RowSteps
 CONSTRAINT Emit
